@@ -10,7 +10,9 @@ import (
 	"encoding/json"
 	"fmt"
 	"os"
+	"os/exec"
 	"path/filepath"
+	"runtime"
 	"strings"
 	"testing"
 	"time"
@@ -18,10 +20,13 @@ import (
 	"verif.local/ev"
 
 	"verif/checks/c12/sscen"
+	"verif/lib/explore"
+	"verif/lib/netctl"
 	"verif/lib/nrun"
 )
 
 func mergeQ(r *ev.Run) {
+	runGenerated(r)
 	path := os.Getenv("C12Q_OUT")
 	if path == "" {
 		if os.Getenv("VERIF_SCENARIO") != "" {
@@ -92,7 +97,164 @@ func keepArtefacts(path, part string) {
 	}
 }
 
+// runGenerated explores the generated family of ack scripts (sscen/gen.go):
+// every script on the default schedule (thorough: plus every single deviation
+// around a representative subset), in the fixed order of sscen.GenNames, with
+// worker subprocesses of this binary (C12_GEN=1).
+func runGenerated(r *ev.Run) {
+	names, fams := sscen.GenNames()
+	if len(names) == 0 {
+		return
+	}
+	budget := 0
+	if ev.Thorough() {
+		budget = 1
+	}
+	limit := ev.Deadline(50*time.Second, 9*time.Minute)
+	if d, err := time.ParseDuration(os.Getenv("C12_GEN_TIME")); err == nil {
+		limit = time.Now().Add(d)
+	}
+	start := time.Now()
+	var scripts, deviated, execs int64
+	done := map[string]bool{}
+	obs := map[string]struct{}{}
+	nviol := 0
+	var firstSamples []any
+	nameOf := func(job explore.Job) string {
+		if len(job.Prefix) == 0 {
+			return names[0]
+		}
+		return names[job.Prefix[0]]
+	}
+	st := explore.Explore(explore.Config{
+		Scenario: "G", Budget: budget, Workers: ev.Workers(), Deadline: limit, JobTimeout: 3 * time.Minute,
+		Subprocess: func() *exec.Cmd {
+			cmd := exec.Command(os.Args[0], "-test.run", "^TestC12$", "-test.timeout", "0")
+			cmd.Env = append(os.Environ(), "VERIF_WORKER=1", "C12_GEN=1", "GOMAXPROCS=1", "GODEBUG=randautoseed=0")
+			if os.Getenv("VERIF_DEBUG") != "" {
+				cmd.Stderr = os.Stderr
+			}
+			return cmd
+		},
+		Allow: func(parent explore.Job, point int, label string, cost int) bool {
+			if cost == 0 {
+				return point == 0 // the script choice
+			}
+			return point > 0 && sscen.GenDeviate(nameOf(parent))
+		},
+		OnResult: func(job explore.Job, res explore.Result) {
+			name := nameOf(job)
+			execs++
+			if job.Cost == 0 {
+				scripts++
+				done[name] = true
+			} else {
+				deviated++
+			}
+			r.Evals(1)
+			r.Traces(1)
+			r.States(int64(len(res.Points)))
+			r.Transitions(int64(res.Steps))
+			r.Distinct("G|" + res.Obs)
+			obs[res.Obs] = struct{}{}
+			if len(firstSamples) < 2 && job.Cost == 0 {
+				firstSamples = append(firstSamples, map[string]any{"scenario": name, "points": len(res.Points) - 1, "obs": res.Obs})
+			}
+			for k, v := range res.Counters {
+				r.Add("counter_"+k, int64(v))
+			}
+			if res.Crash != "" {
+				res.Viol = append(res.Viol, explore.Violation{Key: "worker-crash", What: res.Crash})
+			}
+			if res.Diverged {
+				r.Add("g_diverged", 1)
+			}
+			for _, v := range res.Viol {
+				if nviol < 60 {
+					var prefix []int
+					var labels []string
+					if len(job.Prefix) > 1 {
+						prefix, labels = job.Prefix[1:], job.Labels[1:]
+					}
+					r.Violation(sscen.KeyOf("G", v.Key), fmt.Sprintf("generated script %s, deviations %v: %s", name, job.Kinds, v.What),
+						map[string]any{"check": "C12", "scenario": name, "prefix": prefix, "labels": labels, "violation": v})
+				}
+				nviol++
+			}
+		},
+	})
+	for _, s := range firstSamples {
+		r.Sample(s)
+	}
+	// per sub-family: how many of its scripts ran (names are in family order)
+	famDone := []map[string]any{}
+	i := 0
+	for _, f := range fams {
+		n := 0
+		for _, nm := range names[i : i+f.Count] {
+			if done[nm] {
+				n++
+			}
+		}
+		i += f.Count
+		famDone = append(famDone, map[string]any{"family": f.Name, "scripts": f.Count, "executed": n})
+	}
+	r.Set("g_scripts_total", len(names))
+	r.Set("g_scripts_executed", scripts)
+	r.Set("g_deviation_executions", deviated)
+	r.Set("g_families", famDone)
+	r.Set("g_distinct_outcomes", len(obs))
+	r.Set("g_budget", budget)
+	r.Set("g_violating_executions", nviol)
+	r.Set("g_wall_s", time.Since(start).Seconds())
+	if st.Cut || int(scripts) < len(names) {
+		r.NotExhaustive(fmt.Sprintf("generated ack scripts: time slice ended after %d of %d scripts on the default schedule (fixed enumeration order; %d single-deviation executions)", scripts, len(names), deviated))
+	}
+	fmt.Printf("  %-28s scripts=%d/%d deviation-execs=%d outcomes=%d diverged=%d cut=%v violating=%d %.1fs\n", "G (generated ack scripts)", scripts, len(names), deviated, len(obs), st.Diverged, st.Cut, nviol, time.Since(start).Seconds())
+}
+
+// replayGenerated re-runs the artefact of a generated script in-process.
+func replayGenerated(t *testing.T, path string) bool {
+	b, err := os.ReadFile(path)
+	if err != nil {
+		return false
+	}
+	var a struct {
+		Artefact struct {
+			Scenario string   `json:"scenario"`
+			Prefix   []int    `json:"prefix"`
+			Labels   []string `json:"labels"`
+		} `json:"artefact"`
+	}
+	if json.Unmarshal(b, &a) != nil || !sscen.IsGenName(a.Artefact.Scenario) {
+		return false
+	}
+	runtime.GOMAXPROCS(1)
+	sc := sscen.GenScenario(a.Artefact.Scenario)
+	res := netctl.Run(t, sc, explore.Job{Scenario: sc.Name, Prefix: a.Artefact.Prefix, Labels: a.Artefact.Labels})
+	var lab []string
+	for _, pt := range res.Points {
+		lab = append(lab, pt.Labels[pt.Chosen])
+	}
+	fmt.Printf("replay %s: points=%d diverged=%v\nschedule: %s\nobs: %s\n", sc.Name, len(res.Points), res.Diverged, strings.Join(lab, " "), res.Obs)
+	for _, v := range res.Viol {
+		fmt.Printf("VIOLATION-REPLAYED %s: %s\n", v.Key, v.What)
+	}
+	if len(res.Viol) > 0 {
+		os.Exit(1)
+	}
+	os.Exit(0)
+	return true
+}
+
 func TestC12(t *testing.T) {
+	if explore.IsWorker() && os.Getenv("C12_GEN") == "1" {
+		explore.ServeWorker(func(job explore.Job) explore.Result { return sscen.GenRunJob(t, job) })
+		return
+	}
+	if p := os.Getenv("VERIF_REPLAY"); p != "" && !explore.IsWorker() && replayGenerated(t, p) {
+		return
+	}
 	nrun.Main(t, &nrun.Check{
 		ID: "C12", TestName: "TestC12", Plans: sscen.Plans(), KeyOf: sscen.KeyOf, Extra: mergeQ,
 		QuickTime: 65 * time.Second, ThorTime: 16 * time.Minute,
